@@ -151,6 +151,11 @@ class LibMixin:
                 st.heap["#THREADS"] = z3.Concat(self.harr(st, "#THREADS"), z3.Unit(Ev.mkEv(z3.StringVal("thread.new"), Val.RefV(r),
                                                 box(self.heapify(st, tgt)), NoneV, NoneV, NoneV, NoneV, NoneV)))
             return [Res(st, SV("obj", r, h="Thread"))]
+        if name.endswith("PClass.__new__"):
+            cls = a[0]
+            if cls.k != "cls" or not cls.h:
+                raise Unsupported("PClass.__new__ on a symbolic class")
+            return self.pclass_new(st, cls.h, [], kw, None, None)
         if name == "collections.OrderedDict" and not a and not kw:
             return [Res(st, self.new_dict(st))]
         if name == "inspect.getcallargs":
@@ -258,6 +263,29 @@ class LibMixin:
                     out.append(r)
                 else:
                     out.append(Res(r.st, self.new_list(r.st, self.mkseq([box(self.heapify(r.st, v)) for v in r.val]))))
+            return out
+        if (it.k == "dictview" and it.t[1] == "items" and len(g.ifs) == 1 and isinstance(e.elt, ast.Tuple) and len(e.elt.elts) == 2
+                and isinstance(g.target, ast.Tuple) and len(g.target.elts) == 2 and all(isinstance(x, ast.Name) for x in g.target.elts + e.elt.elts)
+                and [x.id for x in g.target.elts] == [x.id for x in e.elt.elts]
+                and isinstance(g.ifs[0], ast.Compare) and len(g.ifs[0].ops) == 1 and isinstance(g.ifs[0].ops[0], ast.In)
+                and isinstance(g.ifs[0].left, ast.Name) and g.ifs[0].left.id == g.target.elts[0].id):
+            # [(k, v) for k, v in d.items() if k in other]: the items of d restricted to the keys found in `other`
+            out = []
+            for r in self.ev(g.ifs[0].comparators[0], st):
+                if r.exc is not None:
+                    out.append(r)
+                    continue
+                other = self.concretize(r.st, r.val)
+                d = it.t[0]
+                keep = self.as_sset(r.st, other) if other.k in ("dict", "sdict", "sset", "cset") else None
+                if keep is None:
+                    raise Unsupported("restriction comprehension over " + other.k)
+                dom = z3.SetIntersect(self.dom_of(r.st, d), keep)
+                mp = self.ite_map(keep, self.map_of(r.st, d), z3.K(Val, NoneV))
+                lst = self.new_list(r.st, self.fresh("pairs", SeqV))
+                lst.x = "pairs"
+                lst.h = (dom, mp)
+                out.append(Res(r.st, lst))
             return out
         if it.k == "dictview" and not g.ifs:
             d, mode = it.t
